@@ -48,19 +48,6 @@ def headId (l : Forest) : Option Nat := l.head?.map Tree.id
 /-- index of the tree with root handle `p` in one sibling list -/
 def idx? (p : Nat) (l : Forest) : Option Nat := l.findIdx? (fun t => t.id == p)
 
-/-- apply `g` to the sibling list (below the top level of the argument) that contains the root
-    handle `p`; `g` gets the list and the index of `p` in it -/
-def modDeep (p : Nat) (g : Forest → Nat → Forest) : Forest → Forest
-  | [] => []
-  | (.node i n v cs) :: ts =>
-    .node i n v (match idx? p cs with | some j => g cs j | none => modDeep p g cs) :: modDeep p g ts
-
-/-- apply `g` to the sibling list (at any depth) that contains the root handle `p` -/
-def modSibs (p : Nat) (g : Forest → Nat → Forest) (l : Forest) : Forest :=
-  match idx? p l with
-  | some j => g l j
-  | none => modDeep p g l
-
 /-- apply `g` to the children of the node with handle `p` -/
 def modKids (p : Nat) (g : Forest → Forest) : Forest → Forest
   | [] => []
@@ -76,24 +63,34 @@ def find? (p : Nat) : Forest → Option Tree
       | some t => some t
       | none => find? p ts
 
-/-- the sibling list that contains root handle `p`, and the index of `p` in it -/
-def sibsOf? (p : Nat) : Forest → Option (Forest × Nat)
+/-- handle of the node whose children contain the root handle `p` -/
+def parentOf? (p : Nat) : Forest → Option Nat
   | [] => none
-  | (.node i n v cs) :: ts =>
-    match idx? p ((.node i n v cs) :: ts) with
-    | some j => some ((.node i n v cs) :: ts, j)
-    | none => match sibsDeep p ((.node i n v cs) :: ts) with
-      | some r => some r
+  | (.node i _ _ cs) :: ts =>
+    if (idx? p cs).isSome then some i
+    else match parentOf? p cs with
+      | some q => some q
+      | none => parentOf? p ts
+
+/-- the sibling list that contains root handle `p` (the list itself, or the children of `p`'s parent),
+    and the index of `p` in it -/
+def sibsOf? (p : Nat) (l : Forest) : Option (Forest × Nat) :=
+  match idx? p l with
+  | some j => some (l, j)
+  | none =>
+    match parentOf? p l with
+    | none => none
+    | some q =>
+      match find? q l with
       | none => none
-where
-  sibsDeep (p : Nat) : Forest → Option (Forest × Nat)
-  | [] => none
-  | (.node _ _ _ cs) :: ts =>
-    match idx? p cs with
-    | some j => some (cs, j)
-    | none => match sibsDeep p cs with
-      | some r => some r
-      | none => sibsDeep p ts
+      | some tq => (idx? p tq.children).map fun j => (tq.children, j)
+
+/-- apply `g` to the sibling list that contains root handle `p` -/
+def updSibs (p : Nat) (g : Forest → Forest) (l : Forest) : Forest :=
+  if (idx? p l).isSome then g l
+  else match parentOf? p l with
+    | some q => modKids q g l
+    | none => l
 
 /-! ### positions -/
 
@@ -233,7 +230,7 @@ def place (s : St) (p x : Nat) (at_ : Forest → Nat → Option Nat) : Option St
     if (ids [t]).contains p then none
     else match at_ l j with
       | none => some s
-      | some k => some { s with tops := (s.eraseTop x).map (modSibs p fun l' _ => l'.insertIdx k t) }
+      | some k => some { s with tops := (s.eraseTop x).map (updSibs p fun l' => l'.insertIdx k t) }
   | _, _ => none
 
 def after (s : St) (p x : Nat) : Option St :=
@@ -264,10 +261,10 @@ def insert (s : St) (parent : Nat) (pos : Int) (x : Nat) (byName : Bool) : Optio
 
 /-- take `x` (with everything below it) out of its sibling list; it becomes a top-level list of its own -/
 def unlink (s : St) (x : Nat) : Option St :=
-  match s.find? x with
-  | none => none
-  | some t =>
-    some { s with tops := dropEmpty (s.tops.map (modSibs x fun l j => l.eraseIdx j)) ++ [[t]] }
+  match s.find? x, s.sibsOf? x with
+  | some t, some (_, j) =>
+    some { s with tops := dropEmpty (s.tops.map (updSibs x fun l => l.eraseIdx j)) ++ [[t]] }
+  | _, _ => none
 
 /-- `move(from, to)`: merge the sibling list starting at `from` into the sibling list of `to`
     (namesakes searched from `to` on).  Requires different top-level lists.  Also returns the count. -/
@@ -277,8 +274,8 @@ def move (s : St) (frm to : Nat) : Option (St × Nat) :=
     if a = b then none
     else
       let r := merge (l.drop i) dl d
-      let tops1 := s.tops.map (modSibs frm fun l' _ => l'.take i ++ r.1)
-      let tops2 := tops1.map (modSibs to fun _ _ => r.2.1)
+      let tops1 := s.tops.map (updSibs frm fun l' => l'.take i ++ r.1)
+      let tops2 := tops1.map (updSibs to fun _ => r.2.1)
       some ({ s with tops := dropEmpty tops2 }, r.2.2)
   | _, _, _, _ => none
 
